@@ -331,7 +331,7 @@ func genC05CaseFor(t *rapid.T, rule string) (c *ScalarCase, class string) {
 		if rapid.IntRange(0, 2).Draw(t, "reFamily") == 1 {
 			// one of 700 patterns of a family: a process meets more distinct patterns than any bounded memo of compiled
 			// expressions holds, and meets each of them again later
-			n := rapid.IntRange(1, 700).Draw(t, "reFamilyN")
+			n := 1 + int(rapid.Uint64().Draw(t, "reFamilyN")%700) // (spread evenly: range draws favour small values)
 			p.pat, p.hit, p.miss = fmt.Sprintf("^k{%d}b$", n), strings.Repeat("k", n)+"b", strings.Repeat("k", n+1)+"b"
 		}
 		item = "re='" + p.pat + "'"
